@@ -186,16 +186,11 @@ class Ctx:
             params = unit.params()
             ok = False
             for n in env.own_nodes():
-                if isinstance(n, ast.comprehension):
-                    it = n.iter
-                    if isinstance(it, ast.Attribute) and it.attr == 'nodes' and isinstance(it.value, ast.Name) \
-                            and it.value.id in params:
-                        ok = True
-                if isinstance(n, (ast.For,)):
-                    it = n.iter
-                    if isinstance(it, ast.Attribute) and it.attr == 'nodes' and isinstance(it.value, ast.Name) \
-                            and it.value.id in params:
-                        ok = True
+                # iterates (something derived from) the nodes of a dag parameter
+                if isinstance(n, (ast.comprehension, ast.For)):
+                    for x in ast.walk(n.iter):
+                        if isinstance(x, ast.Attribute) and x.attr == 'nodes' and isinstance(x.value, ast.Name) and x.value.id in params:
+                            ok = True
             if not ok:
                 continue
             calls_err = False
